@@ -18,7 +18,7 @@ PROPERTY = "C15"
 
 META = {
     "bounds": {
-        "quick": "(a) every 8-bit string of length <= 3 through parse_as_ast and of length <= 2 through assemble_string_with_emitter; (b) every prefix of 35 template programs + the 2 sample sources followed by 1 symbolic character; (c) token sequences of length <= 3 over all token types x 26 token texts; (d) .for bounds and recursive-macro depth in [-2, 8]",
+        "quick": "(a) every 8-bit string of length <= 3 through parse_as_ast and of length <= 2 through assemble_string_with_emitter; (b) every prefix of 37 template programs + the 2 sample sources followed by 1 symbolic character; (c) token sequences of length <= 3 over all token types x 26 token texts; (d) .for bounds and recursive-macro depth in [-2, 8]",
         "thorough": "(a) length <= 4 (parse) / <= 3 (assemble); (b) 2 symbolic characters; (c) length <= 4; (d) same",
     },
     "outside": ["arbitrary texts longer than the bound", "code points above 255", "dead scanner states unreachable from the public API (lex_macro_args_def)"],
@@ -68,6 +68,8 @@ TEMPLATES = [
     ".macro m(a) {\n{\n.text 'a'\n.db a\n}\n}\n.for i := 0, 2 {\n{\nm(i)\n}\n}\n",
     ".scope a {\n.scope b {\n{\nl:\n.dl l\n}\n}\n}\n.dw a.b\n",
     ".macro r(n) {\n.if n {\n{\nr(n - 1)\n}\n}\n}\nr(3)\n",
+    ".table 't.tbl'\n.text 'Hello a![0x05] aa[0x41]a[end]'\nl:\n.dl l\n",
+    ".table 't.tbl'\n{\n.text '[0x01][0x02]aaaaaaaa[0x03]'\n}\n",
 ]
 
 
